@@ -57,6 +57,24 @@ func (v *Vue) evalInclude(ctx VueContext, node *html.Node, vars map[string]any, 
 		return nil, fmt.Errorf("error parsing %s (included from %s): %w", name, ctx.FormatTemplateChain(), err)
 	}
 
+	// Give every v-once element of the component an id that is the same for
+	// each include of this file, so repeated includes emit it once per render
+	// while different elements never share an id.
+	onceIdx := 0
+	var stampOnce func(n *html.Node)
+	stampOnce = func(n *html.Node) {
+		if n.Type == html.ElementNode && helpers.HasAttr(n, "v-once") {
+			helpers.SetAttr(n, "v-once-id", fmt.Sprintf("%s#%d", name, onceIdx))
+			onceIdx++
+		}
+		for c := n.FirstChild; c != nil; c = c.NextSibling {
+			stampOnce(c)
+		}
+	}
+	for _, n := range compDom {
+		stampOnce(n)
+	}
+
 	// Validate and process template tag
 	processedDom, err := v.evalTemplate(ctx, compDom, ctx.stack.EnvMap(), depth+1)
 	if err != nil {
